@@ -1171,10 +1171,38 @@ package resolve
 //@   ensures !held(s.mu)
 //@   modifies *, count(*), allof(subscriptionState.closePerm)
 
+// fan-out of one event: filter errors are reported to the subscribers whose filter failed and never cut the
+// fan-out to the others short; every subscriber that passed its filter and is not removed gets one update
+// goroutine for this event's data; the call returns only after waiting for all of them (events are not reordered)
+//@ func trigger.filterSubscriptions
+//@   requires noneheld(trigger.mu)
+//@   ensures noneheld(trigger.mu)
+//@   modifies *, count(*)
+//@   trusted partitions the trigger's subscribers by their filter result under trigger.mu (map iteration with user filter callbacks)
 //@ func Resolver.handleTriggerUpdate
 //@   requires r != nil && !held(r.mu) && noneheld(trigger.mu) && noneheld(subscriptionState.writeMu)
+//@   ghost var g_found bool = false
+//@   ghost var g_waited bool = false
+//@   ghost var g_sched int = 0
+//@   ghost var g_skipped int = 0
+//@   at call Resolver.getTrigger: ghost g_found = result1
+//@   at call WaitGroup.Go: ghost g_sched = g_sched + 1
+//@   at call WaitGroup.Wait: ghost g_waited = true
+//@   at call WaitGroup.Wait: assert {one.update.per.live.subscriber.that.passed.its.filter} g_sched + g_skipped == g_total
+//@   ghost var g_total int = -1
+//@   at call trigger.filterSubscriptions: ghost g_total = len(result0)
+//@   at call Bool.Load: ghost g_skipped = ite(result, g_skipped + 1, g_skipped)
+//@   ensures {filter.errors.do.not.cut.the.fan.out.short} g_found ==> g_waited
 //@   modifies *, count(*), allof(subscriptionState.closePerm)
-//@   trusted fan-out with sync.WaitGroup.Go closures (waits for all updates before returning); goroutine bodies call executeSubscriptionUpdate
+//@   loop 0:
+//@     invariant !held(r.mu) && noneheld(trigger.mu) && noneheld(subscriptionState.writeMu) && g_sched == 0 && g_skipped == 0 && g_total == len(subs) && !g_waited && g_found
+//@   loop 1:
+//@     invariant !held(r.mu) && noneheld(trigger.mu) && noneheld(subscriptionState.writeMu) && g_total == len(subs) && !g_waited && g_found
+//@     invariant g_sched + g_skipped == phi0 + 1
+//@ func Resolver.handleTriggerUpdate$1
+//@   assumes {started.by.handleTriggerUpdate} r != nil && !held(r.mu) && noneheld(trigger.mu) && noneheld(subscriptionState.writeMu) && sub != nil
+//@   at call Resolver.executeSubscriptionUpdate: assert {the.update.goroutine.delivers.this.event.to.this.subscriber} arg2 == sub && arg3 == data && arg1 == sub.ctx
+//@   modifies *, count(*), allof(subscriptionState.closePerm)
 //@ func Resolver.handleUpdateSubscription
 //@   requires r != nil && !held(r.mu) && noneheld(trigger.mu) && noneheld(subscriptionState.writeMu)
 //@   modifies *, count(*), allof(subscriptionState.closePerm)
